@@ -163,6 +163,7 @@ func runC09(a *A) {
 			a.Und(fname(g)+"#remainder-fresh", g.Pos(), "no remainder store found")
 		}
 	})
+	a.Rule("keyenc/counting", 1, func() { a.keyencRule("window", "CountingWindow", "getKey", keyencOpts{}) })
 	a.Rule("whomay/consumers", 3, func() {
 		w := W()
 		trig := a.FieldOf(w, "triggerChan")
